@@ -293,6 +293,69 @@ def validate_traces(ck, cases, label, expect_reject=None):
     return n_events, rejects
 
 
+def wide_instances(rnd, tier):
+    """loci with more genotypes than any buffer / block size in the implementation (65536 and beyond)"""
+    shapes = [(4, 36), (2, 363), (6, 17)] if tier == "quick" else [(4, 36), (2, 363), (6, 17), (3, 74), (4, 37), (5, 23), (2, 512), (8, 12), (1, 600)]
+    out = []
+    for k, (P, K) in enumerate(shapes):
+        pat = k % 3
+        n = [1] * K if pat == 0 else [3 if a % 5 == 0 else 1 for a in range(K)] if pat == 1 else [1 + (a * 7) % 4 for a in range(K)]
+        fn = [0, 3, 1][(k + (0 if tier == "quick" else rnd.randrange(3))) % 3]
+        out.append({"P": P, "K": K, "fn": fn, "fd": 16, "n": n, "R": rnd.randint(1, 3), "seed": rnd.randrange(2**31), "n_pick": 12,
+                    "flat_none": pat == 0 and k % 2 == 0})
+    return out
+
+
+def validate_wide(ck, rnd, tier):
+    insts = wide_instances(rnd, tier)
+    res = pool.map_tasks("impl.c03", [{"op": "wide", "insts": [i]} for i in insts], mode="jit")
+    ev = []
+    for i, rr in zip(insts, res):
+        if not rr["ok"]:
+            ck.violation("impl-error", {"error": rr["error"], "tb": rr.get("tb"), "inst": {k: i[k] for k in ("P", "K", "fn")}}, key={"site": "wide-locus"})
+            continue
+        ev.extend(rr["result"][0])
+    if not ev:
+        return 0
+    tf = os.path.join(ck.wd, "trace-wide.json")
+    with open(tf, "w") as fh:
+        json.dump(ev, fh)
+    try:
+        t = tlc.run(SPEC, "TraceWidePosterior", "TraceWide.cfg", workers=1, extra_env={"TRACE_FILE": tf}, name="TraceWidePosterior", timeout=1800)
+    except tlc.TLCError as e:
+        ck.machinery_failure(str(e))
+    ck.add_tlc(t, "TraceWidePosterior")
+    consumed = [p for p in t.printed if "consumed" in p]
+    if not consumed or consumed[0]["consumed"] != len(ev):
+        ck.machinery_failure("wide trace not fully consumed: %s %s" % (consumed, t.error_text[:800]))
+    cur = None
+    for p in t.printed:
+        if "reject" in p:
+            e = ev[p["reject"] - 1]
+            begin = next(x for x in reversed(ev[: p["reject"]]) if x["op"] == "begin")
+            ck.violation("trace-reject", {"clause": p["clause"], "event": e, "instance": {k: begin[k] for k in ("P", "K", "fn", "fd")}},
+                         key={"site": "wide:" + e["op"], "clause": p["clause"], "path": e.get("path", "")})
+    ck.traces += len(insts)
+    ck.note("wide_loci", [{"P": i["P"], "K": i["K"], "genotypes": math.comb(i["K"] + i["P"] - 1, i["P"])} for i in insts])
+    # binding demonstration: a corrupted probability, a wrong index and a wrong total must be rejected
+    bad = [dict(e) for e in ev[:4]]
+    k = next(j for j, e in enumerate(bad) if e["op"] == "gp")
+    bad[k]["q"] = bad[k]["q"] + 50000
+    bad.append(dict(next(e for e in ev if e["op"] == "gp" and e["i"] > 0), i=0))
+    bad.append(dict(next(e for e in ev if e["op"] == "sum"), q9=1000002000))
+    tfb = os.path.join(ck.wd, "trace-wide-corrupt.json")
+    with open(tfb, "w") as fh:
+        json.dump(bad, fh)
+    try:
+        t2 = tlc.run(SPEC, "TraceWidePosterior", "TraceWide.cfg", workers=1, extra_env={"TRACE_FILE": tfb}, name="TraceWidePosterior-demo", timeout=600)
+    except tlc.TLCError as e:
+        ck.machinery_failure(str(e))
+    got = sorted(p["clause"] for p in t2.printed if "reject" in p)
+    if not {"PosteriorIsNormalisedJoint", "IndexIsVcfRank", "ArraySumsToOne"} <= set(got):
+        ck.machinery_failure("corrupted wide trace: expected three named rejections, got %s" % got)
+    return len(ev)
+
+
 def random_instance(rnd):
     P = rnd.randint(1, 5)
     high = rnd.random() < 0.12
@@ -313,6 +376,15 @@ def random_instance(rnd):
     for _ in range(rnd.randint(0, 4) if not high else rnd.randint(0, 1)):
         cells.add(tuple(rnd.choice([-1] + list(range(A[j]))) for j in range(N)))
     reads = [{"cells": list(c), "cnt": rnd.randint(1, 3)} for c in sorted(cells)]
+    if not high and P <= 3 and rnd.random() < 0.12:
+        # a deep sample whose reads all carry a haplotype of prior frequency exactly zero (a masked allele) that differs
+        # from the other haplotypes at three or four SNVs: the likelihood favours it by far more than the range of a
+        # double (> 900 nats), the posterior must still give it nothing
+        K, N, A = rnd.choice([2, 3]), 4, [2, 2, 2, 2]
+        H = [[0, 0, 0, 0], [1, 1, 1, 1], [0, 0, 0, 1]][:K]
+        w = [rnd.randint(1, 3), 0, rnd.randint(1, 3)][:K]
+        reads = [{"cells": [0, 0, -1, 0], "cnt": rnd.randint(1, 3)}, {"cells": [1, 1, 1, 1], "cnt": 120}]
+        Fn = rnd.choice([0, 3, 8])
     return {"P": P, "m": "random", "Fn": Fn, "Fd": 16, "pat": "random", "K": K, "N": N, "H": H, "A": A, "w": w, "reads": reads}
 
 
@@ -740,6 +812,9 @@ def main():
             out_cases.append(api_events(_M, o["variants"]["freq"]))
             ri += 1
     log("traces recorded")
+    nw = validate_wide(ck, rnd, tier)
+    ck.evaluations += nw
+    log("wide loci validated")
     n1, _ = validate_traces(ck, cases, "stream")
     n2, _ = validate_traces(ck, out_cases, "outputs")
     n3, _ = validate_traces(ck, cli_cases, "cli")
